@@ -18,3 +18,10 @@ func VerifParseConsistency(s string) (primitive.ConsistencyLevel, bool) {
 	}
 	return c.ConsistencyLevel, true
 }
+
+// VerifBuildNodes runs Proxy.buildNodes on a bare proxy holding only this configuration
+// (config.DC must be set: the cluster is absent) and returns its error.
+func VerifBuildNodes(config Config) error {
+	p := NewProxy(nil, config)
+	return p.buildNodes()
+}
